@@ -17,7 +17,10 @@ RULE = ('every exception class of pyramid.httpexceptions x detail/comment/explan
         'default / class / custom body templates, called as a WSGI application, plus Router.__call__ on unknown '
         'paths, plus the other raisers reached through a real Router (static view: not found / out of bounds / add-slash '
         'redirect with request URL and query string; PredicateMismatch of multiviews and predicated views; HTTPForbidden '
-        'of secured views), plus histories (one exception object called 2-3 times under different Accept headers / environs, '
+        'of secured views; second world: add_notfound_view(append_slash=True) redirect built from request.path + query '
+        'string and its 404 fall-through, a view returning the response of a subrequest run through the tweens (the page '
+        'must be negotiated against the OUTER request), BadCSRFOrigin echoing the Origin header, each optionally with a '
+        'NewResponse subscriber or a response callback that re-labels the response before it is called), plus histories (one exception object called 2-3 times under different Accept headers / environs, '
         'incl. a failing first call), plus the constructor\'s other documented keywords: json_formatter= (formatters building '
         'their dict from body/status/title/constants/environ[K]/environ.get(K, D), succeeding or raising KeyError for the '
         'request at hand, also across the calls of a history) and the Response keywords content_type= / charset= (equal to '
@@ -31,18 +34,21 @@ ASSUMPTIONS = [
     'response header names passed as headers= are ASCII (str.lower() is modelled on ASCII); Content-Type and Content-Length can never be named by a Template identifier and are left out of the args map',
     'object state across calls is modelled (a successful prepare() stores body/content type/charset; later calls repeat it; a failed call leaves no trace): histories of 2-3 calls on one object are generated; only __call__ is driven, not direct mutation of body/content_type between calls',
     'request.path_info decoding (WebOb) is an oracle input for the Router path; only decodable paths are generated',
+    'request.url / path / path_info / path_url / query_string (WebOb) are oracle inputs of the regenerated raise-site expressions (gen_site_*); debug_notfound / debug_authorization are off; Origin headers are printable ASCII that urlparse accepts with scheme https and a foreign host',
     'request.url / path_url / query_string (WebOb) are oracle inputs for the static-view cases; QUERY_STRING is ASCII (a non-UTF-8 query makes request.params of the predicate fail with UnicodeDecodeError before any exception is rendered)',
     'REQUEST_METHOD != HEAD (WebOb then sends an empty body); Location without CR/LF (WebOb rejects it)',
 ]
 TRUSTED = [
     'primitive table of harness/c19/translate.py (docstring; ~40 entries: Python/WebOb/Pyramid leaf semantics -> coq/Model/C19_base.v) and the translator itself (fail-closed, its output is type-checked by Coq and exercised by the correspondence run)',
+    'raise sites outside httpexceptions.py: argument expressions regenerated for router / static view (3 sites) / append-slash view (translate.SITES; control flow around them pinned, static_view.add_slash_redirect translated whole); predicate-mismatch, secured-view and CSRF-origin messages are computed by harness/c19/apps.py from formats read out of the source; a fail-closed scan of the whole package lists every function that builds an HTTP exception and demands a pin or translation for it',
     'hand-written reference model coq/Model/C19.v (what the theorems are about); _no_escape, HTTPException.__str__, default_exceptionresponse_view, exception_response and the other raisers stay shape-pinned',
     'string.Template.substitute, webob.html_escape (html.escape + xmlcharrefreplace), json.dumps(ensure_ascii), str.encode("utf-8"): modelled, validated by correspondence (code-point sweeps), not verified',
     'WebOb Response: constructor keywords content_type= / charset= / location=, the content_type setter (value + default charset for text/*, text/html and XML types, earlier parameters dropped), charset = None, header list: modelled in coq/Model/C19_base.v (kw_ctype, kw_charset, default_charset, texty), validated by correspondence; Accept negotiation: oracle',
 ]
 TECHNIQUE = ('Coq proof about a hand-written Gallina reference model; the control flow of HTTPException.__init__, '
              '_HTTPMove.__init__, HTTPForbidden.__init__, _json_formatter, prepare and __call__ is REGENERATED from the source on every run by a '
-             'fail-closed ast -> Gallina translator (harness/c19/translate.py) and proved equal to the reference model; '
+             'fail-closed ast -> Gallina translator (harness/c19/translate.py) and proved equal to the reference model, as are '
+             'the argument expressions of the raise sites in router.py, static.py and view.py; '
              'extracted regenerated program vs implementation differential run')
 LEVEL_TEXT = ('Machine-checked, for all texts, classes of the regenerated table, negotiation outcomes and call sequences: the '
               'program regenerated from the source (constructors, prepare, __call__, threaded through any sequence of calls on '
@@ -56,6 +62,10 @@ LEVEL_TEXT = ('Machine-checked, for all texts, classes of the regenerated table,
               'show in the response; a custom json_formatter= is consulted in the JSON form only, receives the single-pass '
               'rendering of the body template, its members are dumped as an ASCII JSON object that reads back exactly, and a '
               'formatter that raises yields no response (never another rendering under the application/json label). '
+              'The expressions by which the router, the static view and the append-slash Not Found view build their '
+              'exceptions are regenerated and proved equal to a reference in which a request property sits behind fixed text and '
+              'no body template is passed; a Content-Type written on the object before the call (subscriber, callback, tween) '
+              'never reaches the client of a rendering class. '
               'Tie to the code: the translator (control flow mechanical, leaves through a primitive table), '
               'regenerated literals/class table, shape pins only for untranslated helpers, and a differential run of the '
               'extracted regenerated program against the real exceptions, Router and static/secured/predicated views.')
@@ -108,6 +118,19 @@ def facts(src):
     summary = F.check_shapes(src, os.path.join(HERE, 'pins.json'), problems)
     coq, s2 = factsx.extract(src, problems)
     summary.update(s2)
+    # every place in the package that builds an HTTP exception response must be tied (pinned / translated), also
+    # outside the anchor files: a new or moved construction site is a broken tie
+    from . import translate
+    with open(os.path.join(HERE, 'pins.json')) as f:
+        pins = json.load(f)
+    sites = factsx.raise_sites(src, problems)
+    for site in sites:
+        rel, qual = site.split(':')
+        parts = qual.split('.')
+        prefixes = ['.'.join(parts[:i]) for i in range(1, len(parts) + 1)]
+        if not (any(q in pins.get(rel, {}) for q in prefixes) or any('%s:%s' % (rel, q) in translate.TRANSLATED for q in prefixes)):
+            problems.append('an HTTP exception is built in %s, which no pin or translation covers' % site)
+    summary['exception_construction_sites'] = sites
     return {'coq': coq, 'summary': summary, 'problems': problems}
 
 
@@ -504,10 +527,21 @@ def to_wire(case):
             steps.append([[list(kv) for kv in env], oracle_offers(_accept_of(dict(map(tuple, env))))])
         return [case['cls'], _opt(case['detail']), _opt(case['comment']), _opt(case['explanation']), case['location'],
                 [list(kv) for kv in case['headers']], _opt(case['body_template']), steps, _ext_wire(case)]
-    if case['via'] == 'app':
-        cls, detail, loc = apps.expected(case, _table()['formats'])
+    if case['via'] in ('app', 'router') and _site_of(case) is not None:
+        # the raise site's argument expressions are REGENERATED (translate.SITES): Coq computes class / detail /
+        # location from the WebOb request properties (oracle) through gen_site_* (model) and site_* (specification)
+        site, env = _site_of(case)
+        from webob import Request
+        req = Request(dict(map(tuple, env)))
         acc = case['accept']
-        return [cls, _opt(detail), None, None, loc, [], apps.environ_of(case), None,
+        menv = apps.environ_of(case) if case['via'] == 'app' else []
+        return [site, [req.url, req.path, req.path_info, req.path_url, req.query_string], menv,
+                oracle_offers('' if acc is None else acc)]
+    if case['via'] == 'app':
+        ex = apps.expected(case, _table()['formats'])
+        cls, detail, loc = ex[:3]
+        acc = case['accept']
+        return [cls, _opt(detail), None, _opt(ex[3] if len(ex) > 3 else None), loc, [], apps.environ_of(case), None,
                 oracle_offers('' if acc is None else acc), [None, None, None]]
     if case['via'] == 'router':
         acc = case['accept']
@@ -517,6 +551,28 @@ def to_wire(case):
     return [case['cls'], _opt(case['detail']), _opt(case['comment']), _opt(case['explanation']), case['location'],
             [list(kv) for kv in case['headers']], [list(kv) for kv in case['environ']], _opt(case['body_template']),
             oracle_offers(_accept_of(env)), _ext_wire(case)]
+
+
+SITE_OF_KIND = {'static-missing': 'static_missing', 'static-oob': 'static_oob', 'static-slash': 'static_slash',
+                'slash-redirect': 'append_slash', 'slash-miss': 'router', 'sub-notfound': 'router'}
+
+
+def _site_of(case):
+    """-> (site name, environ of the request the site reads) or None (raisers whose message is built from configuration
+    data: predicate mismatch, secured view, CSRF origin -- expected value computed by apps.expected)"""
+    if case['via'] == 'router':
+        env = [list(kv) for kv in BASE_ENV]
+        env[5][1] = case['path'].encode('utf-8').decode('latin-1')
+        return 'router', env
+    site = SITE_OF_KIND.get(case['kind'])
+    if site is None:
+        return None
+    env = apps.environ_of(case)
+    if case['kind'] == 'sub-notfound':
+        d = dict(map(tuple, env))
+        env = [['REQUEST_METHOD', 'GET'], ['SERVER_NAME', 'localhost'], ['SERVER_PORT', '80'], ['wsgi.url_scheme', 'http'],
+               ['SCRIPT_NAME', ''], ['PATH_INFO', '/nf' + d['PATH_INFO'][len('/sub'):]]]
+    return site, env
 
 
 def _dec(o):
@@ -551,6 +607,7 @@ def setup(tier):
     cfg.commit()
     _impl['app'] = cfg.make_wsgi_app()
     _impl['app2'] = apps.build_app()
+    _impl['app3'] = apps.build_app3()
 
 
 def _collect(app, environ):
@@ -588,7 +645,7 @@ def run_impl(case):
     if not _impl:
         setup('quick')
     if case['via'] == 'app':
-        return _collect(_impl['app2'], dict(map(tuple, apps.environ_of(case))))
+        return _collect(_impl['app3' if apps.is_app3(case) else 'app2'], dict(map(tuple, apps.environ_of(case))))
     if case['via'] == 'router':
         env = dict(map(tuple, BASE_ENV))
         env['PATH_INFO'] = case['path'].encode('utf-8').decode('latin-1')
@@ -650,7 +707,7 @@ def _supplied(case):
             out += _supplied(_as_direct(case, k))
         return out
     if case['via'] == 'app':
-        return [t for t in (case['path'], case['query'], case['script']) if t]
+        return [t for t in (case['path'], case['query'], case['script'], case.get('origin')) if t]
     if case['via'] == 'router':
         return [case['path']]
     out = [case['detail'], case['comment'], case['explanation'], case['location']]
@@ -798,6 +855,10 @@ def kinds(case, obs):
     if case['via'] == 'app':
         acc = case['accept']
         k.append('app-' + case['kind'])
+        if case.get('relabel'):
+            k.append('app-relabel-callback' if case.get('relabel_cb') else 'app-relabel-subscriber')
+            if obs[0] == 'OK' and obs[2] != case['relabel']:
+                k.append('app-relabel-differs-from-negotiated')
         texts = _supplied(case) + [apps.expected(case, _table()['formats'])[1] or '']
     elif case['via'] == 'router':
         acc = case['accept']
@@ -902,8 +963,12 @@ def shrinks(case):
     if case.get('via') == 'app':
         if case['accept'] not in (None, 'text/html'):
             yield dict(case, accept='text/html')
-        for f in ('query', 'script', 'path'):
-            for t in _str_shrinks(case[f]):
+        if case.get('relabel_cb'):
+            yield {k: v for k, v in case.items() if k != 'relabel_cb'}
+        if case.get('relabel'):
+            yield {k: v for k, v in case.items() if k not in ('relabel', 'relabel_cb')}
+        for f in ('query', 'script', 'path', 'origin'):
+            for t in _str_shrinks(case.get(f) or ''):
                 yield dict(case, **{f: t})
         return
     if case.get('via') == 'router':
@@ -983,6 +1048,19 @@ def targeted(broken, disagreements, rng):
         for acc in ['text/html', 'application/json', 'text/plain']:
             for q in ['', 'x=<script>&y=${br}"\'']:
                 out.append({'via': 'app', 'kind': kind, 'path': path, 'query': q, 'script': '', 'accept': acc})
+    for acc in ['text/html', 'application/json', 'text/plain', None]:
+        for rl, cb in [(None, None), ('text/html', None), ('text/html', True), ('application/json', None)]:
+            for kind, path, q in [('slash-redirect', '/slash/a<b>$x', 'x=<script>&y=${br}"\'$$'), ('slash-redirect', '/fixed', '"><b>${detail}'),
+                                  ('slash-redirect', '/fixed', ''), ('slash-miss', '/zz<b>${br}', ''),
+                                  ('sub-notfound', '/sub/<script>${br}', ''), ('csrf-origin', '/csrf', '')]:
+                c = {'via': 'app', 'kind': kind, 'path': path, 'query': q, 'script': '', 'accept': acc}
+                if kind == 'csrf-origin':
+                    c['origin'] = 'https://evil<script>${br}"'
+                if rl:
+                    c['relabel'] = rl
+                if cb:
+                    c['relabel_cb'] = True
+                out.append(c)
     for cls in ['HTTPNotFound', 'HTTPFound', 'HTTPMethodNotAllowed']:
         for a1 in ['text/plain', 'application/json', 'text/html', None]:
             for a2 in ['text/html', 'application/json', 'text/plain']:
